@@ -299,7 +299,57 @@ def _containers_x_pool(ctx):
         check_program(ctx, None, n, Program(n), [], bag)
 
 
+def _literal_lookalikes_in_union_dump(ctx):
+    """'Dumper finds appropriate dumper using object type': an object that merely compares equal to a literal member of another case
+    (Decimal(200) next to Literal[200, 300]) is dumped by the case of its class (defect #71, fixed in the repository)."""
+    from decimal import Decimal  # noqa: PLC0415
+    from fractions import Fraction  # noqa: PLC0415
+
+    K = spec.SCALAR_BY_KIND
+    for node, values in (
+        (spec.UnionT([spec.LiteralT((200, 300)), K["Decimal"]]), [Decimal(200), Decimal(201), 200, 300]),
+        (spec.UnionT([K["Fraction"], spec.LiteralT((1, "a"))]), [Fraction(1), Fraction(1, 2), 1, "a"]),
+        (spec.IterT("List", spec.UnionT([spec.LiteralT((0, 1)), K["Decimal"], K["str"]])), [[Decimal(0), 0, Decimal(1), 1, "x"]]),
+    ):
+        check_program(ctx, None, node, Program(node), values, [])
+
+
+def _generic_alias_parameter_order(ctx):
+    """PEP 695 generic aliases are 'processed as the aliased type': arguments go to the parameters by DECLARATION order, whatever the
+    order of appearance inside the value, and unused parameters are legal (defect #72, fixed in the repository)."""
+    import sys  # noqa: PLC0415
+    if sys.version_info < (3, 12):
+        return
+    from decimal import Decimal  # noqa: PLC0415
+
+    from adaptix import DebugTrail, Retort  # noqa: PLC0415
+    ns = {}
+    exec("type Pair[K, V] = dict[V, K]\ntype Unused[T] = int\ntype Second[K, V] = list[V]\ntype Same[K, V] = dict[K, V]\n"  # noqa: S102
+         "type Nest[A, B] = list[tuple[B, A]]", ns)
+    D = Decimal
+    table = [  # (hint, reference hint, data accepted, data rejected, value to dump)
+        (ns["Pair"][str, D], dict[D, str], {"1": "a"}, {"a": 1}, {D(1): "a"}),
+        (ns["Unused"][str], int, 1, "a", 1),
+        (ns["Second"][str, D], list[D], ["1"], [[]], [D(1)]),
+        (ns["Same"][str, D], dict[str, D], {"a": "1"}, {"a": []}, {"a": D(1)}),
+        (ns["Nest"][str, D], list[tuple[D, str]], [["1", "a"]], [["a", 1]], [(D(1), "a")]),
+    ]
+    for dt in DebugTrail:
+        r = Retort(debug_trail=dt)
+        for hint, ref_hint, good, bad, val in table:
+            ctx.evaluated(("alias-order", repr(hint), dt.name), nontrivial=True)
+            ctx.count("alias_order_checks")
+            outs = [(attempt(r.load, good, h), attempt(r.load, bad, h), attempt(r.dump, val, h)) for h in (hint, ref_hint)]
+            for i, what in enumerate(("load of conforming data", "load of non-conforming data", "dump")):
+                a, b = outs[0][i], outs[1][i]
+                if a.kind != b.kind or (a.kind == "ok" and not strict_eq(a.value, b.value)):
+                    ctx.violation("alias:arguments-not-applied-by-declaration-order", f"{hint!r} ({what}, {dt.name}): {a!r:.160}; the aliased type {ref_hint!r} gives {b!r:.160}",
+                                  {"hint": repr(hint), "aliased": repr(ref_hint), "what": what})
+
+
 DIRECTED = {
+    "literal-lookalikes-in-union-dump": _literal_lookalikes_in_union_dump,
+    "generic-alias-parameter-order": _generic_alias_parameter_order,
     "containers-x-pool": _containers_x_pool,
     "confusable-literals-in-one-type": _confusable_literals,
     "literal-bytes-strict": _directed(spec.LiteralT((b"abc", 1)), "YWJj"),
